@@ -35,7 +35,12 @@ type Ctx struct {
 	Replay  bool // single-case replay: be verbose
 	w       *worker
 	curCase func() interface{}
+	skipped bool
 }
+
+// Skip marks the index as not denoting a case (invalid combination of an over-approximated
+// product space); it is not counted as an evaluation.
+func (c *Ctx) Skip() { c.skipped = true }
 
 // Space is a finite indexable case space.
 type Space interface {
@@ -303,7 +308,9 @@ func Main(spaces map[string]func(tier string) Space) {
 			}()
 			sp.Run(i, c)
 		}()
-		w.evals++
+		if !c.skipped {
+			w.evals++
+		}
 	}
 	if *only >= 0 {
 		runOne(uint64(*only), true)
@@ -355,4 +362,25 @@ func trimStack(st []byte) string {
 		}
 	}
 	return strings.Join(out, "\n")
+}
+
+// Radix is a mixed-radix index decoder (index <-> digit vector bijection).
+type Radix []uint64
+
+func (r Radix) Size() uint64 {
+	n := uint64(1)
+	for _, d := range r {
+		n *= d
+	}
+	return n
+}
+
+// Digits decodes idx; digit 0 varies fastest.
+func (r Radix) Digits(idx uint64) []int {
+	out := make([]int, len(r))
+	for i, d := range r {
+		out[i] = int(idx % d)
+		idx /= d
+	}
+	return out
 }
